@@ -6,7 +6,7 @@ open Ports
 `pmodel ports` (C11): one case per line, one observation per line.
 
 token grammar (prefix, whitespace separated):
-  value : A <ty> <id> | D <n> (<key> value)*
+  value : A <ty> <id> | D <n> (<key> value)* | F <n> (<key> value)*      (F: a frozen mapping)
   optv  : - | value
   optn  : - | <nat>
   port  : L <req> <optn:type> <optv:default> <callable> <optn:validator>
@@ -19,14 +19,15 @@ tree: atoms `A<ty>:<id>`, plain dicts `{k=v,...}`, frozen mappings `<k=v,...>`, 
 
 partial def pValue : List String → Option (V × List String)
   | "A" :: t :: i :: rest => do some (.atom (← t.toNat?) (← i.toNat?), rest)
-  | "D" :: n :: rest => do
+  | d :: n :: rest => do
+      if d ≠ "D" ∧ d ≠ "F" then none
       let k ← n.toNat?
       let rec go : Nat → List String → List (String × V) → Option (List (String × V) × List String)
         | 0, r, acc => some (acc.reverse, r)
         | m+1, key :: r, acc => do let (v, r') ← pValue r; go m r' ((key, v) :: acc)
         | _, _, _ => none
       let (items, r) ← go k rest []
-      some (.dict false items, r)
+      some (.dict (d == "F") items, r)
   | _ => none
 
 def pOptV : List String → Option (Option V × List String)
